@@ -70,11 +70,18 @@ Definition w_ptrs_of (T : nat) : locs :=
   ++ flat_map stream_ptrs (seq 0 T)
   ++ map (fun i => (ptr_key (wp_cp P ++ "threads")%string (8 * Z.of_nat i), VInt (Z.of_nat (S i)))) (seq 0 T))%list.
 
+(* the names of the memory of the stream objects: none of a later heap object (what the next allocations of the main thread need),
+   no "sizeof:" override *)
+Definition sm_names_ok (T : nat) (sm : memory) : Prop :=
+  (forall n y, (h + 4 + T <= n)%nat -> mget sm (RefineE2ENames.hobj n ++ y) = None) /\
+  (forall r, mget sm ("sizeof:" ++ r) = None).
+
 (* stream object i represents the register iv *)
 Definition w_srep (T i : nat) (iv : list N) (sm : memory) : Prop :=
   mget sm (wmp i ++ "iv") = Some (bytes_object iv) /\ block16 iv /\
   (exists wc, mget sm (wmp i ++ "crypt.w") = Some (bobj wc) /\ List.length wc = 16%nat) /\
-  mget sm (wmp i ++ "crypt.key.key") = Some (bobj (concat (map (map Z.of_N) (wp_ks P)))).
+  mget sm (wmp i ++ "crypt.key.key") = Some (bobj (concat (map (map Z.of_N) (wp_ks P)))) /\
+  sm_names_ok T sm.
 
 Definition wlayout : Layout := {|
   LS := list N;
@@ -113,7 +120,8 @@ Record wpar_ok : Prop := {
   wo_tabs : forall c T, RefineAesOps.tabs_ok (wp_memA P c T);
   wo_ks_len : List.length (wp_ks P) = 11%nat;
   wo_ks_blocks : Forall block16 (wp_ks P);
-  wo_iv : block16 (wp_iv P) }.
+  wo_iv : block16 (wp_iv P);
+  wo_out0 : Forall (fun z => 0 <= z < 256)%Z (wp_out0 P) }.
 
 Hypothesis OK : wpar_ok.
 
